@@ -30,9 +30,11 @@ TwsIn(m0, e) ==
   IN
   IF m0.hs # "reading" \/ m0.conn = "closed" THEN Reject(m0, "Harness", "input-while-not-reading", m0.hs)
   ELSE
-  CASE sym = "init" ->
+  \* "initslow" = a connection_init whose InitFunc takes its time (the handler is busy until "initgo")
+  CASE sym \in {"init", "initslow"} ->
          IF m.conn = "opened" THEN [m EXCEPT !.pend = "ack"]
          ELSE [m EXCEPT !.pend = "close", !.pcodes = {4429}]
+    \* connection_terminate belongs to the legacy protocol: an unknown type here
     \* a refused init: never acknowledged; the server may close (4401 as the code does, 4403, 4400) - if it does not,
     \* the connection simply stays un-acknowledged.  On an acknowledged connection it is a second init all the same.
     [] sym = "initrej" ->
@@ -59,7 +61,7 @@ TwsIn(m0, e) ==
          ELSE IF m.op[id].st = "active" /\ ~m.op[id].stop THEN [m EXCEPT !.pend = "close", !.pcodes = {4409}]
          ELSE Activate(m, id, SubKind(sym), e.k)
     [] sym \in CompSyms -> ClientStop(m, CompId(sym))
-    [] sym = "unknown" -> [m EXCEPT !.pend = "close", !.pcodes = {4400}]
+    [] sym \in {"unknown", "terminate"} -> [m EXCEPT !.pend = "close", !.pcodes = {4400}]
     [] sym \in {"malformed", "binary"} -> [m EXCEPT !.popt = {Opt("close4400", "")}]
     [] OTHER -> Reject(m, "Harness", "unknown-symbol", sym)
 
@@ -68,10 +70,11 @@ TwsOut(m, e) ==
   ELSE
   CASE e.a = "connection_ack" -> OutAck(m, e)
     [] e.a = "pong" ->
-         IF m.pend = "pong" THEN [m EXCEPT !.pend = "none"]
-         ELSE IF e.code = 1 /\ m.conn = "acked" THEN m            \* heartbeat
+         IF e.code = 1 /\ m.conn = "acked" THEN m                 \* heartbeat (its own payload), not a reply
+         ELSE IF m.pend = "pong" THEN [m EXCEPT !.pend = "none"]
          ELSE Reject(m, "OutputAllowed", "unsolicited-pong", e.a)
     [] e.a = "ping"     -> m                                       \* the server may ping at any time
+    [] e.a = "wsctl"    -> m                                       \* WebSocket control frame (pong for a client ping frame)
     [] e.a = "next"     -> OutData(m, e)
     [] e.a = "error"    -> OutError(m, e)
     [] e.a = "complete" -> OutComplete(m, e)
@@ -94,6 +97,7 @@ TwsStep(m, e) ==
     [] e.ev = "panic"   -> Reject(m, "NoPanic", "panic", e.a)
     [] e.ev = "done"    -> m
     [] e.ev = "broken"  -> [m EXCEPT !.broken = TRUE]
+    [] e.ev \in {"initgo", "tick"} -> m          \* the slow InitFunc returns / a keep-alive interval has passed
     [] e.ev = "hold"    -> [m EXCEPT !.wif = TRUE]
     [] e.ev = "unhold"  -> [m EXCEPT !.wif = FALSE]
     [] OTHER            -> Reject(m, "Harness", "unknown-event", e.ev)
